@@ -541,8 +541,8 @@ def calculate_icm(
     :param chips: The players' chips.
     :return: The ICM values.
     """
-    payouts = tuple(payouts)
     chips = tuple(chips)
+    payouts = tuple(payouts)[:len(chips)]
     chip_sum = sum(chips)
     chip_percentages = [chip / chip_sum for chip in chips]
     icms = [0.0] * len(chips)
